@@ -157,23 +157,15 @@ CheckPrio ==
                   /\ RLeq(roff.cr[c].ed.del[t], r.cr[c].ed.del[t])
 
 \* ---- C13 at model level: RER is a proper fraction and the perimeters are nested, for the
-\* regulatory sets at k_exp = 0.  The formulas of rer_onst / rer_nrb are the code's (Balance!Evaluate);
-\* the two known design-level findings are named weakenings, not silent ones:
-\*   KF_C13_PvExport: on-site electricity is exported (rer_onst keeps the exported part, rer_nrb drops it)
-\*   KF_C13_CgnExport: cogenerated electricity is exported (rer_nrb subtracts resources it never added)
-ElExports(r) == "ELECTRICIDAD" \in r.crs /\ ~RIsZero(r.cr["ELECTRICIDAD"].an.exp)
-KF_C13_PvExport(r) == ElExports(r) /\ "EL_INSITU" \in r.cr["ELECTRICIDAD"].up.srcs
-                      /\ ~RIsZero(r.cr["ELECTRICIDAD"].an.expJ["EL_INSITU"])
-KF_C13_CgnExport(r) == ElExports(r) /\ "EL_COGEN" \in r.cr["ELECTRICIDAD"].up.srcs
-                       /\ ~RIsZero(r.cr["ELECTRICIDAD"].an.expJ["EL_COGEN"])
+\* regulatory sets at k_exp = 0 (no weakening: the perimeter formulas of Balance!Evaluate are consistent)
 CheckRer ==
   (Done /\ cfg.fac \in Locs) =>
      LET r == Evaluate(comps, F, Zero, A, lm, n) IN
      RPos(r.tot) =>
        /\ RLeq(Zero, r.rer) /\ RLeq(r.rer, One)
        /\ RLeq(Zero, r.rer_onst)
-       /\ (KF_C13_PvExport(r) \/ KF_C13_CgnExport(r) \/ RLeq(r.rer_onst, r.rer_nrb))
-       /\ (KF_C13_CgnExport(r) \/ RLeq(r.rer_nrb, r.rer))
+       /\ RLeq(r.rer_onst, r.rer_nrb)
+       /\ RLeq(r.rer_nrb, r.rer)
 
 \* ---- C08 at model level: Factors!Strip keeps every factor the evaluation of this building
 \* looks up, so the outcome and the result are those of the full set
